@@ -122,7 +122,7 @@ func UnicodeIdentClass(name, spell string) string {
 }
 
 func (g *G) identNode(k string) *Node {
-	if g.cfg.UnicodeIdent && g.chance(3) {
+	if g.cfg.UnicodeIdent && g.chance(2) {
 		u := unicodeIdents[g.int(0, len(unicodeIdents)-1)]
 		n := &Node{K: k, Name: u[0]}
 		if u[1] != u[0] {
@@ -138,7 +138,7 @@ func (g *G) propName(n *Node) {
 	switch {
 	case g.chance(30):
 		n.Name = g.from(ReservedWords)
-	case g.cfg.UnicodeIdent && g.chance(3):
+	case g.cfg.UnicodeIdent && g.chance(2):
 		u := unicodeIdents[g.int(0, len(unicodeIdents)-1)]
 		n.Name = u[0]
 		if u[1] != u[0] {
@@ -548,7 +548,40 @@ func (g *G) freshLabel(c gctx) string {
 	return fmt.Sprintf("L%d", len(c.labels))
 }
 
+// branchy: a loop body that ends in a break / continue, labelled when a label is in reach.
+func (g *G) branchy(d int, c gctx) *Node {
+	b := &Node{K: "block"}
+	if d > 1 && g.chance(60) {
+		b.Kids = append(b.Kids, g.stmt(d-2, c))
+	}
+	br := &Node{K: []string{"break", "continue"}[g.int(0, 1)]}
+	var names []string
+	for _, l := range c.labels {
+		if l.iter || br.K == "break" {
+			names = append(names, l.name)
+		}
+	}
+	if len(names) > 0 && g.chance(70) {
+		br.Name = g.from(names)
+	}
+	if g.chance(50) {
+		b.Kids = append(b.Kids, &Node{K: "if", Kids: []*Node{g.expr(1), br, nil}})
+	} else {
+		b.Kids = append(b.Kids, br)
+	}
+	return b
+}
+
 func (g *G) loop(d int, c gctx) *Node {
+	n := g.loop0(d, c)
+	if g.chance(25) {
+		body := c.with(func(n *gctx) { n.inIter = true })
+		n.Kids[len(n.Kids)-1+map[string]int{"dowhile": -1}[n.K]] = g.branchy(d, body)
+	}
+	return n
+}
+
+func (g *G) loop0(d int, c gctx) *Node {
 	body := c.with(func(n *gctx) { n.inIter = true })
 	switch g.pick([]int{3, 3, 3, 3}) {
 	case 0:
